@@ -20,6 +20,8 @@ func runC15(p *Program, r *Report) {
 	ruleR152(p, r)
 	ruleR153(p, r)
 	ruleR154(p, r)
+	r.Rule("R15.5", "E3", 4, "a poison record embedded in a value is found wherever it starts: the inline scanner advances to the found tag, by one byte, or by the replaced envelope's length, never over positions it has not examined")
+	ruleScanAdvance(p, r, "R15.5")
 }
 
 func ruleR151(p *Program, r *Report) {
